@@ -15,10 +15,11 @@ func init() {
 	register(&Prop{
 		ID:          "C06",
 		Title:       "Reads return exactly the read-mask projection and never mutate",
-		Explanation: "R06.1 ResponseFilter.FilterClone's decision table: nil mask returns the message itself, nil message returns nil, an empty mask returns a reset clone, otherwise a clone filtered with the mask's paths; in every row the argument is never written (parameter-mutation analysis) and every mutator receives the clone. R06.2 every read goes through the filter built from the request's mask: Value.get, Collection.Get, every element of List, and the Value / OldValue / NewValue of events forwarded by Pull derive from FilterClone / change.filter with ReadRequest.ResponseFilter = NewResponseFilter(WithFieldMask(rr.ReadMask)); the filter helpers of change events project both values and keep the other fields. R06.3 no caller of the in-place ResponseFilter.Filter passes a published message or a container of published messages (E2). R06.4 ResponseFilter.Validate returns InvalidArgument exactly when a mask is set and invalid for the message. Does NOT decide equality with an independent projection nor panic-freedom of fmutils for corrupted masks (third-party code).",
+		Explanation: "R06.1 ResponseFilter.FilterClone's decision table: nil mask returns the message itself, nil message returns nil, an empty mask returns a reset clone, otherwise a clone filtered with the mask's paths; in every row the argument is never written (parameter-mutation analysis) and every mutator receives the clone. R06.2 every read goes through the filter built from the request's mask: Value.get, Collection.Get, every element of List, and the Value / OldValue / NewValue of events forwarded by Pull derive from FilterClone / change.filter with ReadRequest.ResponseFilter = NewResponseFilter(WithFieldMask(rr.ReadMask)); the filter helpers of change events project both values and keep the other fields. R06.3 no caller of the in-place ResponseFilter.Filter passes a published message or a container of published messages (E2). R06.4 ResponseFilter.Validate returns InvalidArgument exactly when a mask is set and invalid for the message. R06.8 also: ReadRequest.ResponseFilter hands its mask to WithFieldMask on every path not taken for a nil mask. Does NOT decide equality with an independent projection nor panic-freedom of fmutils for corrupted masks (third-party code).",
 		Assumptions: []string{"fmutils.Filter(msg, paths) keeps exactly the listed paths of msg; proto.Clone is a deep copy"},
 		Run:         runC06,
 		Controls: []Control{
+			{Name: "read-request-shortcut-for-empty-mask", File: "pkg/resource/opt.go", Old: "func (rr *ReadRequest) ResponseFilter() *masks.ResponseFilter {\n", New: "func (rr *ReadRequest) ResponseFilter() *masks.ResponseFilter {\n\tif len(rr.ReadMask.GetPaths()) == 0 {\n\t\treturn masks.NewResponseFilter()\n\t}\n", Expect: "R06.8"},
 			{Name: "sanitiser-appends-the-raw-path", File: "pkg/masks/get.go", Old: "\t\tif path = traversablePrefix(md, path); path != \"\" {", New: "\t\tif prefix := traversablePrefix(md, path); prefix != \"\" {", Expect: "R06.15"},
 			{Name: "emptiness-tested-on-the-raw-mask", File: "pkg/masks/get.go", Old: "\tclone := proto.Clone(msg)\n\tpaths := filterPaths(msg, r.fields.GetPaths())\n\tif len(paths) == 0 {", New: "\tclone := proto.Clone(msg)\n\tpaths := filterPaths(msg, r.fields.GetPaths())\n\tif len(r.fields.GetPaths()) == 0 {", Expect: "R06.13"},
 			{Name: "walker-descends-into-the-containing-message", File: "pkg/masks/get.go", Old: "\t\tmd = fd.Message()\n", New: "\t\tmd = fd.ContainingMessage()\n", Expect: "R06.14"},
@@ -970,6 +971,42 @@ func r068(c *an.Ctx, rule string) {
 		c.Check(ok, rule, "pkg/masks."+name+"|declines exactly for a nil mask", fn.Pos(), "nil -> do-nothing option, anything else is configured",
 			"the option does not configure the mask in exactly the non-nil case ("+why+"): a non-nil mask without paths means `no fields` (reads return an empty message, updates change nothing); treated like nil it means `everything`, and reads hand out the stored message itself")
 	}
+	r068read(c, rule)
+}
+
+// r068read: the read request hands its mask to the response filter as it is. ResponseFilter passes ReadMask to
+// WithFieldMask (which declines exactly for nil, above) on every path except one taken for a nil mask: a shortcut
+// for "no paths" makes the empty mask read as the whole message again, one layer above the option.
+func r068read(c *an.Ctx, rule string) {
+	fn := c.Prog.Func("pkg/resource", "ReadRequest", "ResponseFilter")
+	if fn == nil || len(fn.Params) != 1 {
+		c.Unk(rule, "(*pkg/resource.ReadRequest).ResponseFilter", 0, "function not found")
+		return
+	}
+	leaves := an.DecisionTree(fn, an.DTConfig{Names: map[ssa.Value]string{fn.Params[0]: "rr"}})
+	ok, why := len(leaves) > 0, ""
+	for _, l := range leaves {
+		if l.Undec != "" || len(l.Returns) != 1 {
+			ok, why = false, "decision table not extracted: "+l.Undec
+			continue
+		}
+		ret := l.Returns[0].S + " " + strings.Join(l.Calls, " ; ")
+		if strings.Contains(ret, "WithFieldMask(") && strings.Contains(ret, "ReadMask") {
+			continue
+		}
+		nilOnly := len(l.AssignM) > 0
+		for a, v := range l.AssignM {
+			a2 := strings.ReplaceAll(a, " ", "")
+			if !((a2 == "rr.ReadMask==nil" || a2 == "nil==rr.ReadMask") && v == "true") {
+				nilOnly = false
+			}
+		}
+		if !nilOnly {
+			ok, why = false, fmt.Sprintf("path %v returns %s", l.Assign, l.Returns[0].S)
+		}
+	}
+	c.Check(ok, rule, "(*pkg/resource.ReadRequest).ResponseFilter|the read mask reaches the filter unless it is nil", fn.Pos(), "NewResponseFilter(WithFieldMask(rr.ReadMask))",
+		"the read request builds a filter without its mask on a path not taken for a nil mask ("+why+"): a non-nil mask without paths means `no fields`; read as `no mask` the whole stored message is returned, and returned uncloned")
 }
 
 // cutsAtLists: an `fd.IsList()` test whose "is a list" edge reaches a return of a shortened path (a slice expression)
